@@ -1294,10 +1294,10 @@ func init() {
 	props["C05"] = func(c *Ctx) {
 		c.Res.Rule = "case = a query derived from the grammar (log queries: selector of 0-3 matchers + 0-5 stages of all kinds incl. nested label predicates with and/or/comma/implicit-and/parentheses and number/duration/bytes/ip comparisons, json/logfmt with labels and path expressions, label_format renames and templates, drop/keep with matchers; metric queries of depth 1-3: all 15 range aggregations with parameter, range-first and pipeline-first forms, offset, unwrap with conversions and filters, grouping; all 11 vector aggregations with grouping before/after and parameters; binary operations over all 15 operators with bool/on/ignoring/group_left/group_right modifiers; literals with signs, vector(), label_replace, parentheses; labels incl. names that are also function names; strings with quotes, backticks, newlines, non-ASCII) rendered (1/4) in the canonical single-space layout, (1/2) in a random layout (separators drawn from blanks, newlines, CRLF, comments, none where lexemes may touch; strings as interpreted, raw or fully escaped literals), or (1/4) after one corruption (delete / replace / insert / swap a lexeme, an uncompilable regex, a wrong literal kind or function); the text is tokenised by the real lexer and Parser.parse runs on those tokens with regexp.Compile as the regex oracle; the Go tree is compared node for node; every layout variant must be accepted like the canonical layout and give the same tree; non-trivial = accepted; distinct by text"
 		spec := &Spec[C05Case]{
-			What:   "Parser.parse Gen.prec Gen.isLogic (lexer.Tokenize text) == logql.Parse text; layout independence of logql.Parse",
-			Gen:    c05Gen,
-			Req:    c05Req,
-			Impl:   c05Impl,
+			What: "Parser.parse Gen.prec Gen.isLogic (lexer.Tokenize text) == logql.Parse text; layout independence of logql.Parse",
+			Gen:  c05Gen,
+			Req:  c05Req,
+			Impl: c05Impl,
 			// numbers are float64 in the implementation and exact rationals in the model: compare after
 			// rounding the model's decimal to float64
 			Equal: func(t C05Case, impl, model Sexp) bool { return normNums(impl).String() == normNums(model).String() },
@@ -1414,7 +1414,9 @@ func init() {
 			},
 			Nontrivial:    func(t C05LexCase, impl Sexp) bool { return impl.Head() == "ok" },
 			PropertyFails: func(t C05LexCase, impl, model Sexp) bool { return false },
-			Signature:     func(t C05LexCase, impl, model Sexp) string { return "lexer:impl=" + impl.Head() + ",model=" + model.Head() },
+			Signature: func(t C05LexCase, impl, model Sexp) string {
+				return "lexer:impl=" + impl.Head() + ",model=" + model.Head()
+			},
 			Tags: func(t C05LexCase, impl Sexp) []string {
 				return []string{"c05lex:" + t.How + ":" + impl.Head()}
 			},
@@ -1458,7 +1460,9 @@ func init() {
 			},
 			Nontrivial:    func(t C05LexCase, impl Sexp) bool { return impl.Head() == "ok" },
 			PropertyFails: func(t C05LexCase, impl, model Sexp) bool { return true },
-			Signature:     func(t C05LexCase, impl, model Sexp) string { return "text:impl=" + impl.Head() + ",model=" + model.Head() },
+			Signature: func(t C05LexCase, impl, model Sexp) string {
+				return "text:impl=" + impl.Head() + ",model=" + model.Head()
+			},
 			Tags: func(t C05LexCase, impl Sexp) []string {
 				return []string{"c05text:" + t.How + ":" + impl.Head()}
 			},
@@ -1493,10 +1497,10 @@ func init() {
 		// every token sequence of length 1-3 over the whole alphabet, and of length 4-5 over a core alphabet,
 		// written with single spaces: logql.Parse and the model must agree on acceptance and on the tree
 		spec := &Spec[C05Case]{
-			What:   "Parser.parse Gen.prec Gen.isLogic (lexer.Tokenize text) == logql.Parse text; layout independence of logql.Parse",
-			Req:    c05Req,
-			Impl:   c05Impl,
-			Equal:  func(t C05Case, impl, model Sexp) bool { return normNums(impl).String() == normNums(model).String() },
+			What:          "Parser.parse Gen.prec Gen.isLogic (lexer.Tokenize text) == logql.Parse text; layout independence of logql.Parse",
+			Req:           c05Req,
+			Impl:          c05Impl,
+			Equal:         func(t C05Case, impl, model Sexp) bool { return normNums(impl).String() == normNums(model).String() },
 			Nontrivial:    func(t C05Case, impl Sexp) bool { return impl.Head() == "ok" },
 			PropertyFails: func(t C05Case, impl, model Sexp) bool { return true },
 			Signature:     func(t C05Case, impl, model Sexp) string { return c05Signature(t, impl, model) },
@@ -1556,9 +1560,11 @@ func init() {
 			},
 			Nontrivial:    func(t C05LexCase, impl Sexp) bool { return impl.Head() == "ok" },
 			PropertyFails: func(t C05LexCase, impl, model Sexp) bool { return false },
-			Signature:     func(t C05LexCase, impl, model Sexp) string { return "lexer:impl=" + impl.Head() + ",model=" + model.Head() },
-			Tags:          func(t C05LexCase, impl Sexp) []string { return []string{"c05lex:exhaustive:" + impl.Head()} },
-			Key:           func(t C05LexCase) string { return "lex:" + string(t.Text) },
+			Signature: func(t C05LexCase, impl, model Sexp) string {
+				return "lexer:impl=" + impl.Head() + ",model=" + model.Head()
+			},
+			Tags: func(t C05LexCase, impl Sexp) []string { return []string{"c05lex:exhaustive:" + impl.Head()} },
+			Key:  func(t C05LexCase) string { return "lex:" + string(t.Text) },
 		}
 		full := []byte("ab_w(){}[]|=!~<>+-*/%^.,#\"`'\\ \n\t09eE5xmKsBi:@\x00\xc3\xa9")
 		small := []byte("a(|=!~-/*.#\"`\\ \n15meK")
